@@ -551,7 +551,9 @@ class Parser:
                 _ch, index = self._decode_escape_sequence(value, index, token)
                 unescaped.append(_ch)
             else:
-                self._string_from_codepoint(ord(ch), token)
+                if ord(ch) <= 0x1F:  # noqa: PLR2004
+                    # Control characters must be escaped.
+                    raise JSONPathSyntaxError("invalid character", token=token)
                 unescaped.append(ch)
             index += 1
         return "".join(unescaped)
@@ -648,9 +650,8 @@ class Parser:
                 )
         return codepoint
 
-    def _string_from_codepoint(self, codepoint: int, token: Token) -> str:
-        if codepoint <= 0x1F:
-            raise JSONPathSyntaxError("invalid character", token=token)
+    def _string_from_codepoint(self, codepoint: int, token: Token) -> str:  # noqa: ARG002
+        # Any code point, control characters included, may be written as \uXXXX.
         return chr(codepoint)
 
     def _is_high_surrogate(self, codepoint: int) -> bool:
